@@ -46,6 +46,31 @@ pub fn run(ctx: &mut Ctx) {
             src = format!("{} {}", pre, src);
             ctx.tag("kind:meta-prefix");
         }
+        // a program whose first instruction is a jump target: it comes back to address 0, which is the start of the
+        // program only the first time
+        if !meta_prefix && ctx.rng.chance(8) {
+            let k = ctx.rng.range(1, 4);
+            src = match ctx.rng.below(3) {
+                0 => format!("begin depth {} < while 7 repeat {}", k, src),
+                1 => format!("begin 1 depth {} > until {}", k, src),
+                _ => format!("begin depth {} < while depth 0 do I drop loop 5 repeat", k),
+            };
+            ctx.tag("kind:back-to-address-0");
+        }
+        // late-bound words: the first execution of each resolves and patches the instruction, and is one step
+        if !meta_prefix && ctx.rng.chance(8) {
+            let pre = match ctx.rng.below(3) {
+                0 => "late sq : cube dup sq * ; : sq dup * ; 3 cube 1 + cube drop",
+                1 => "late lw : a1 lw lw + ; 5 var lw a1 drop 6 ! lw a1 drop",
+                _ => "late k1 late k2 : both k1 k2 ; : k1 1 ; : k2 k1 k1 + ; both both + + drop",
+            };
+            src = format!("{} {}", pre, src);
+            ctx.tag("kind:late-bound");
+        }
+        // a source rejected while the program is paused (a typo at the prompt) is forgotten completely: it changes
+        // nothing, in particular not what reverse stepping can take back. Builds are outside the machine-level model,
+        // so these histories go to the oracle only.
+        let reject_at: Option<usize> = if !meta_prefix && ctx.rng.chance(12) { ctx.tag("kind:rejected-source-while-paused"); Some(ctx.rng.below(max_steps / 2)) } else { None };
         let mut xs = match prepare(&base, &src, true) {
             Some(xs) => xs,
             None => { ctx.tag("skipped:build-error"); continue; }
@@ -64,9 +89,34 @@ pub fn run(ctx: &mut Ctx) {
         let mut budget = total + ctx.rng.below(total + 1) * 2;
         let mut phase_forward = true;
         let mut oracle_done = false;
+        let mut turn = 0usize;
+        let full_rewind = ctx.rng.chance(35);
+        let mut planned = false;
+        let mut forced: Vec<bool> = Vec::new();
         while budget > 0 {
             budget -= 1;
-            let fwd = if phase_forward { if pos >= total { phase_forward = false; false } else { true } } else { ctx.rng.chance(45) };
+            turn += 1;
+            if reject_at == Some(turn) && clean {
+                // (the instruction meter keeps what a rejected source's meta blocks executed — C14 — and is not compared)
+                let before = vmcanon::core_dump(&xs.verif_dump());
+                let log0 = xs.verif_dump().reverse_log_len;
+                let bad = *ctx.rng.pick(&["1 nosuchword", "1 if 2", ": half 2 nosuchword ;", "#( 1 2 + nosuchword #)", "[ 1 2", "\"unterminated"]);
+                let r = if ctx.rng.bool() { crate::guarded(|| xs.eval(bad)) } else { crate::guarded(|| xs.compile(bad)) };
+                let after = vmcanon::core_dump(&xs.verif_dump());
+                let log1 = xs.verif_dump().reverse_log_len;
+                let ok = matches!(r, Some(Err(_))) && before == after && log0 == log1;
+                ctx.check(ok, || format!("C02 `{}` rejected after {} steps/rewinds of `{}`", bad, turn - 1, src), || format!("rejected; log={:?} {}", log0, before), || format!("{:?}; log={:?} {}", r.map(|x| x.is_ok()), log1, after));
+            }
+            if !phase_forward && !planned && full_rewind {
+                // all the way back to the start of the program and forward again, then the random walk goes on
+                planned = true;
+                forced = std::iter::repeat(false).take(pos).chain(std::iter::repeat(true).take(pos)).collect();
+                forced.reverse();
+                budget += 2 * pos;
+                ctx.tag("walk:rewind-to-the-start-and-replay");
+            }
+            let fwd = if phase_forward { if pos >= total { phase_forward = false; false } else { true } }
+                else if let Some(f) = forced.pop() { f } else { ctx.rng.chance(45) };
             if fwd {
                 let r = match crate::guarded(|| xs.next()) { Some(r) => r, None => { script.push("n"); answers.push("panic@".into()); break; } };
                 script.push("n");
@@ -118,6 +168,6 @@ pub fn run(ctx: &mut Ctx) {
             }
         }
         ctx.tag(&format!("steps:{}", (hist.len() - 1) / 10 * 10));
-        if !meta_prefix { ctx.case(format!("C02 vm {} view=full script={}", setup, script.join(",")), answers.join(" ; ")); }
+        if !meta_prefix && reject_at.is_none() { ctx.case(format!("C02 vm {} view=full script={}", setup, script.join(",")), answers.join(" ; ")); }
     }
 }
